@@ -148,7 +148,16 @@ func cmdCheck(w *World, cfg *RunCfg, prop, replay string, t0 time.Time) int {
 	if prop == "C09" {
 		results = append(results, w.formatDelegation()...)
 	}
+	if prop == "C01" || prop == "C11" || prop == "C12" {
+		results = append(results, w.registryTable(prop)...)
+	}
 	solveAll(w, cfg, results)
+	if cfg.Tier == "thorough" {
+		// thorough tier only: the property-level replay oracles are also run once against the
+		// unchanged real code ("audit": a BOUNDED test of the property statement and of the extern
+		// models, labelled as such - never counted as proof; backend "bounded-replay")
+		results = append(results, w.auditOracles(cfg, prop)...)
+	}
 
 	known := loadKnown(cfg.Verif)
 	isKnown := func(name string) *KnownFinding {
@@ -317,7 +326,7 @@ func cmdCheck(w *World, cfg *RunCfg, prop, replay string, t0 time.Time) int {
 			"drift":                    drift,
 			"lost_obligations":         lost,
 			"known_findings":           knownLines,
-			"explanation":              "every obligation is a named verification condition generated from the SSA of the current working tree and discharged by an SMT solver; see DESIGN.md",
+			"explanation":              "every obligation is a named verification condition generated from the SSA of the current working tree and discharged by an SMT solver (backend 'syntactic': structural rules of sframe.go / trivially true goals); in the thorough tier, obligations named audit.* are BOUNDED runs of the property-level replay oracles on the real code (backend 'bounded-replay'), not proofs; see DESIGN.md",
 		},
 		"assumptions": append(append(sortedKeys(notes), propAssumptions(prop)...), axiomAssumptions(w)...),
 	}
@@ -406,7 +415,11 @@ func writeReplay(w *World, cfg *RunCfg, prop, dir string, r *FuncResult, o *Obli
 		}
 	}
 	confirmed := false
-	if fq != nil {
+	if fq != nil && o.Kind == "audit" {
+		// a bounded audit IS a run of the real code: its failing output is the replay
+		fmt.Fprintf(&b, "--- audit run on the real code (%d ms) ---\n%s\n", fq.Ms, trunc(fq.Output, 20000))
+		confirmed = true
+	} else if fq != nil {
 		fmt.Fprintf(&b, "path: %v\nsolver: %s (%d ms) -> %s\n--- solver output ---\n%s\n", fq.Trace, fq.Solver, fq.Ms, fq.Status, trunc(fq.Output, 20000))
 		{
 			if text, ok := tryReplay(w, cfg, prop, r, o, fq); text != "" {
@@ -466,7 +479,7 @@ func propertyCarrying(name string) bool {
 		return false
 	}
 	k := name[i+1:]
-	for _, p := range []string{"post.", "assert.", "maintains.", "encoder.safe", "nilin.nilout", "inv.", "delegates"} {
+	for _, p := range []string{"post.", "assert.", "maintains.", "encoder.safe", "nilin.nilout", "inv.", "delegates", "LeafDecoder", "WrapperDecoder", "MultiCause", "LeafEncoder", "WrapperEncoder"} {
 		if strings.HasPrefix(k, p) {
 			return true
 		}
@@ -492,4 +505,46 @@ func writeBaseline(verif, prop string, recs []oblRecord) {
 	base[prop] = names
 	data, _ := json.MarshalIndent(base, "", " ")
 	os.WriteFile(path, data, 0o644)
+}
+
+// auditOracles runs the executable oracle(s) registered for a property on the current tree.
+func (w *World) auditOracles(cfg *RunCfg, prop string) []*FuncResult {
+	oracles := map[string][]struct {
+		name string
+		f    replayTemplate
+		dummy string
+	}{
+		"C03": {{"special-case printer: unsafe text never survives Redact()", specialReplay, "errutil.specialCaseFormat#safe.audit"}},
+		"C06": {{"redactable renderings of hostile strings are well-formed; unsupported verbs refused", formatReplay, "(*errbase.state).printEntry#audit"}},
+		"C09": {{"verbs x flags x width x precision print what fmt prints for Error()", formatReplay, "(*errbase.state).finishDisplay#audit"}},
+		"C15": {{"report structure over chains, multi-cause, stack-less and decoded trees", reportReplay, "report.BuildSentryReport#audit"}},
+		"C18": {{"16 goroutines x 30 rounds under the race detector + purity of observation", frameReplay, "audit#frame.0"}},
+	}
+	var out []*FuncResult
+	for i, oc := range oracles[prop] {
+		name := fmt.Sprintf("audit.%s.%d", prop, i+1)
+		o := &Obligation{Name: name, Func: "audit", Kind: "audit", Props: []string{prop}, Text: "BOUNDED audit (thorough tier): " + oc.name}
+		q := &Query{Goal: tTrue, Status: "trivial", Solver: "bounded-replay"}
+		pkgRel, src := oc.f(w, &Obligation{Name: oc.dummy}, &Query{}, nil)
+		if src != "" {
+			dir := filepath.Join(cfg.Verif, "replays", prop)
+			os.MkdirAll(dir, 0o755)
+			gp := filepath.Join(dir, name+"_test.go.txt")
+			os.WriteFile(gp, []byte("// overlay: "+pkgRel+"\n"+src), 0o644)
+			t0 := time.Now()
+			outText, failed := runOverlayTest(cfg, gp)
+			q.Ms = time.Since(t0).Milliseconds()
+			if failed {
+				q.Status = "sat"
+				q.Output = outText
+			}
+		}
+		o.Queries = []*Query{q}
+		o.Status = "discharged"
+		if q.Status == "sat" {
+			o.Status = "failed"
+		}
+		out = append(out, &FuncResult{Name: "audit." + prop, Obls: []*Obligation{o}})
+	}
+	return out
 }
